@@ -110,7 +110,8 @@ struct Exec {
     w.endObj().emit(out);
   }
 
-  bool x64() const { return arch == "x64"; }
+  bool x64() const { return arch == "x64" || arch == "x86"; }     // the x86 family (x86-32 or x86-64)
+  bool is32() const { return arch == "x86"; }
   std::unique_ptr<BaseEmitter> make(const std::string& kind) {
     if (x64()) {
       if (kind == "asm") return std::unique_ptr<BaseEmitter>(new x86::Assembler());
@@ -238,7 +239,7 @@ struct Exec {
     auto EM = [&](size_t k) -> int { return int(o[k].i()) - 1; };
     begin();
     if (name == "Init") {
-      call([&] { return code.init(Environment(x64() ? Arch::kX64 : Arch::kAArch64)); });
+      call([&] { return code.init(Environment(is32() ? Arch::kX86 : x64() ? Arch::kX64 : Arch::kAArch64)); });
       w.beginObj().kv("e", "Init"); finish(); return;
     }
     if (name == "ResetH") {
@@ -363,6 +364,13 @@ struct Exec {
       w.beginObj().kv("e", "Report").kv("em", i + 1); finish(); return;
     }
     if (name == "Emit") { emit(EM(1), o[2].str, o.size() > 3 && o[3].b); return; }
+    if (name == "EmitN") {
+      int i = EM(1);
+      Operand_ ops7[7];
+      for (auto& x : ops7) x = x64() ? Operand_(x86::eax) : Operand_(a64::x0);
+      call([&] { return em[i]->emit_op_array(x64() ? InstId(x86::Inst::kIdAdd) : InstId(a64::Inst::kIdAdd), ops7, 7); });
+      w.beginObj().kv("e", "EmitN").kv("em", i + 1); finish(); return;
+    }
     if (name == "Misc") { misc(EM(1), o[2].str); return; }
     if (name == "Finalize") { finalize(EM(1), o.size() > 2 && o[2].b); return; }
     fprintf(stderr, "unknown op %s\n", name.c_str());
@@ -402,14 +410,14 @@ struct Exec {
     bool other = (opts & ~(uint32_t(InstOptions::kX86_Lock) | uint32_t(InstOptions::kX86_Rep))) != 0;
     bool xr = e->has_extra_reg();
     bool cm = e->inline_comment() != nullptr;
-    enum Req { AddMR, AddRR, MovRI, Paddd, MovXX, Movs, Vaddps, A64Add, A64Marker, A64Bad, Id0 } req = AddRR;
+    enum Req { AddMR, AddRR, MovRI, Paddd, MovXX, Movs, Vaddps, RexIn32, A64Add, A64Marker, A64Bad, Id0 } req = AddRR;
     if (x64()) {
       int flav = (other || (lock && rep) || ((lock || rep) && xr)) ? -1 : lock ? 1 : rep ? 2 : xr ? 3 : 0;
       // (instruction id 0 only on an Assembler: InstAPI::validate() accepts kIdNone without operands - C13's subject)
-      if (cls == "B") req = (a && serial % 3 == 0) ? Id0 : MovXX;
+      if (cls == "B") req = (a && serial % 3 == 0) ? Id0 : (a && is32() && serial % 3 == 1) ? RexIn32 : MovXX;
       else if (flav < 0) { cls = "X"; req = AddRR; }
       else if (cls == "G") req = flav == 1 ? AddMR : flav == 2 ? Movs : flav == 3 ? Vaddps : ((serial & 1) ? AddRR : AddMR);
-      else if (cls == "Z") { if (flav == 0) req = MovRI; else { cls = "X"; req = AddRR; } }
+      else if (cls == "Z") { if (flav == 0) { req = MovRI; if (is32()) cls = "G"; } else { cls = "X"; req = AddRR; } }
       else if (cls == "V") { if (flav == 0 || flav == 3) req = Paddd; else if (flav == 1) req = AddRR; else { cls = "X"; req = AddRR; } }
       else { cls = "X"; req = AddRR; }
     } else {
@@ -417,26 +425,40 @@ struct Exec {
       else if (cls == "V") { if (a && i < kMaxEm) req = A64Marker; else { cls = "X"; req = A64Add; } }
       else { if (cls == "Z") cls = "G"; if (cls != "G") cls = "X"; req = A64Add; }
     }
+    // the request as (id, operands)
+    InstId id = 0; Operand_ ops[6]; size_t n = 0;
+    for (auto& o : ops) o.reset();
+    auto set = [&](InstId iid, std::initializer_list<Operand> l) { id = iid; n = 0; for (auto& o : l) ops[n++] = o; };
+    x86::Gp base = is32() ? x86::eax : x86::rax, di = is32() ? x86::edi : x86::rdi, si = is32() ? x86::esi : x86::rsi;
+    switch (req) {
+      case AddMR: set(x86::Inst::kIdAdd, {x86::ptr(base, 0, 4), x86::ebx}); break;
+      case AddRR: set(x86::Inst::kIdAdd, {x86::eax, x86::ebx}); break;
+      case MovRI: if (is32()) set(x86::Inst::kIdMov, {x86::eax, Imm(1)}); else set(x86::Inst::kIdMov, {x86::rax, Imm(1)}); break;
+      case Paddd: set(x86::Inst::kIdPaddd, {x86::xmm0, x86::ymm1}); break;
+      case MovXX: set(x86::Inst::kIdMov, {x86::xmm0, x86::xmm1}); break;
+      case Movs: set(x86::Inst::kIdMovs, {x86::ptr(di, 0, 1), x86::ptr(si, 0, 1)}); break;
+      case Vaddps: set(x86::Inst::kIdVaddps, {x86::zmm0, x86::zmm1, x86::zmm2}); break;
+      case RexIn32: set(x86::Inst::kIdAdd, {x86::r8d, x86::eax}); break;
+      case A64Add: set(a64::Inst::kIdAdd, {a64::x0, a64::x1, a64::x2}); break;
+      case A64Marker: set(a64::Inst::kIdSub, {a64::x3, a64::x4, a64::x5}); break;
+      case A64Bad: set(a64::Inst::kIdAdd, {a64::x0}); break;
+      case Id0: set(0, {}); break;
+    }
     if (grow && a) pad_to_growth(a);
     begin();
     if (req == A64Marker) g_refuse[i] = true;
     size_t off0 = a && a->is_initialized() ? a->offset() : 0;
     BaseNode* cur0 = b && b->is_initialized() ? b->cursor() : nullptr;
+    unsigned api = serial % 3;                    // the three public ways to emit the same request
     call([&]() -> Error {
-      switch (req) {
-        case AddMR: return e->emit(x86::Inst::kIdAdd, x86::ptr(x86::rax, 0, 4), x86::ebx);
-        case AddRR: return e->emit(x86::Inst::kIdAdd, x86::eax, x86::ebx);
-        case MovRI: return e->emit(x86::Inst::kIdMov, x86::rax, 1);
-        case Paddd: return e->emit(x86::Inst::kIdPaddd, x86::xmm0, x86::ymm1);
-        case MovXX: return e->emit(x86::Inst::kIdMov, x86::xmm0, x86::xmm1);
-        case Movs: return e->emit(x86::Inst::kIdMovs, x86::ptr(x86::rdi, 0, 1), x86::ptr(x86::rsi, 0, 1));
-        case Vaddps: return e->emit(x86::Inst::kIdVaddps, x86::zmm0, x86::zmm1, x86::zmm2);
-        case A64Add: return e->emit(a64::Inst::kIdAdd, a64::x0, a64::x1, a64::x2);
-        case A64Marker: return e->emit(a64::Inst::kIdSub, a64::x3, a64::x4, a64::x5);
-        case A64Bad: return e->emit(a64::Inst::kIdAdd, a64::x0);
-        case Id0: return e->emit(0);
+      if (api == 1) return e->emit_op_array(id, ops, n);
+      if (api == 2) return e->emit_inst(BaseInst(id, e->inst_options(), e->extra_reg()), ops, n);
+      switch (n) {
+        case 0: return e->emit(id);
+        case 1: return e->emit(id, ops[0]);
+        case 2: return e->emit(id, ops[0], ops[1]);
+        default: return e->emit(id, ops[0], ops[1], ops[2]);
       }
-      return Error::kOk;
     });
     g_refuse[i] = false;
     // what was appended, and the effect of the pending one-shot state on it
@@ -581,7 +603,8 @@ static vj::Value random_op(vj::Rng& r, Exec& ex, unsigned step) {
   static const char* mk[] = {"C", "F", "L", "A", "E", "C", "F"};
   if (c < 870) return A({V("Misc"), V(i), V(mk[r.below(7)])});
   if (c < 910) return A({V("Finalize"), V(i), VB(r.chance(1, 4))});
-  if (c < 930) return A({V("Report"), V(i)});
+  if (c < 925) return A({V("Report"), V(i)});
+  if (c < 930) return A({V("EmitN"), V(i)});
   long long l = 1 + (long long)r.below(2);
   static const char* fl[] = {"mc", "hi", "ho", "rc", "po"};
   static const char* md[] = {"set", "add", "clear"};
@@ -620,8 +643,9 @@ int main(int argc, char** argv) {
     static const std::vector<std::vector<std::string>> a64kinds = {{"asm"}, {"asm", "asm"}};
     for (unsigned x = 0; x < nexec; x++) {
       bool a64 = r.chance(1, 4);
+      bool x32 = !a64 && r.chance(1, 5);
       const auto& kinds = a64 ? a64kinds[r.below(a64kinds.size())] : x64kinds[r.below(x64kinds.size())];
-      Exec ex(out, a64 ? "a64" : "x64", kinds, r.next());
+      Exec ex(out, a64 ? "a64" : x32 ? "x86" : "x64", kinds, r.next());
       unsigned n = steps / 2 + unsigned(r.below(steps));
       for (unsigned i = 0; i < n; i++) ex.op(random_op(r, ex, i));
     }
